@@ -153,6 +153,23 @@ Theorem C18_iteration_order :
 Proof. exact iteration_order. Qed.
 Print Assumptions C18_iteration_order.
 
+(* The hypothesis above is the SHALLOW [is_known] (Go: forEachVal.IsKnown(), not
+   IsWhollyKnown()): a collection whose length and keys are known but which contains unknown
+   values is expanded like any other.  Instance: for_each = ["a", <unknown string>]
+   (wholly_known = false) gives two ordinary blocks (Unknown() = false), the attribute
+   x = b.value of the second one evaluating to the unknown string. *)
+Example C18_example_partially_unknown_for_each_expands :
+  wholly_known pu_val = false /\ is_known pu_val = true /\ is_null pu_val = false
+  /\ can_iterate (fst (unmark pu_val)) = true /\ is_marked (fst (unmark pu_val)) = false
+  /\ value [] (ELit pu_val) = (pu_val, [])
+  /\ item_err (fresh [pu_item] [] None []) pu_schema pu_item = false
+  /\ map (fun blk => (xb_unknown (xb_body blk),
+                      map (fun a => fst (xvalue [] (snd a)))
+                          (xc_attrs (xb_content (mkSchema [(str_x, false)] []) (xb_body blk)))))
+         (item_blocks (fresh [pu_item] [] None []) pu_schema pu_item)
+     = [(false, [VStr str_a]); (false, [VUnk TStr rf_none])].
+Proof. exact partially_unknown_for_each_expands. Qed.
+
 (* the order of [elements]: index order, (sorted) key order, set order as given *)
 Theorem C18_elements_order :
   (forall t l, map fst (elements (VList t l)) = map (fun k => VNum (nz (Z.of_nat k))) (seq 0 (length l))
